@@ -18,7 +18,7 @@ REQUIRED_THEOREMS = ["Gv.Props.C04." + n for n in [
     "selectSites_inversePositions_ok",
     # Transpose, Split
     "transpose_spec", "transpose_transpose", "transpose_twice_drops_zero_length_rows",
-    "newPartSet_partInv", "addRange_partInv", "split_reinterleave_id", "split_ok_iff"]]
+    "newPartSet_partInv", "addRange_partInv", "split_reinterleave_id", "split_blocks", "split_ok_iff"]]
 LEVEL_TEXT = ("Lean theorems about the model of SubAlign / SelectSites / InverseCoordinates / InversePositions / RefCoordinates / "
               "RefSites / Transpose / Diff+Replace / AddRange / Split for all alignments and all integer arguments (success iff "
               "in range, never a panic; addressed columns in addressed order; the reference window is the smallest one and "
